@@ -121,7 +121,7 @@ Definition writable (d : data) : bool := match d with DNone | DUnwritable => fal
 Inductive out := Done | Loaded (i : Z) | LoadedReserved | Rej (e : err).
 Inductive op :=
   | Write (k : key) (d : data) | Load (k : key) | Remove (k : key) | Replace (k : key) (d : data)
-  | ClearCache | Reopen (f : Z).      (* Reopen f = Artifact(path, filter_terms = f) *)
+  | ClearCache | Reopen (f : Z).      (* Reopen f = Artifact(path, filter_terms = f); f < 0: terms the constructor refuses *)
 
 Section Ops.
 (* what the UNFILTERED hdf.load gives back for a stored content: [rt true] for tables, [rt false] for JSON payloads
@@ -213,7 +213,9 @@ Definition load (s : store) (k : key) : store * out :=
        end.
 
 (* Reopen f = a new Artifact object on the same path with filter f: Keys.__init__ reads the keyspace node, the cache is
-   empty.  Two handles with different filters used alternately on one file are a history with Reopen between. *)
+   empty.  Two handles with different filters used alternately on one file are a history with Reopen between.
+   Artifact.__init__ 45 calls _parse_draw_filters first: two draw terms (ValueError) or a draw comparison other than
+   =, ==, in (NotImplementedError) make the constructor raise before anything is touched - the old handle stays. *)
 Definition step (s : store) (o : op) : store * out :=
   match o with
   | Write k d => write s k d
@@ -221,7 +223,8 @@ Definition step (s : store) (o : op) : store * out :=
   | Remove k => remove s k
   | Replace k d => replace s k d
   | ClearCache => ({| file_of := file_of s; keyspace := keyspace s; keys := keys s; cache := []; filt := filt s |}, Done)
-  | Reopen f => ({| file_of := file_of s; keyspace := keyspace s; keys := keyspace s; cache := []; filt := f |}, Done)
+  | Reopen f => if f <? 0 then (s, Rej EOther)
+                else ({| file_of := file_of s; keyspace := keyspace s; keys := keyspace s; cache := []; filt := f |}, Done)
   end.
 
 Fixpoint run (s : store) (ops : list op) : store :=
@@ -262,13 +265,14 @@ Definition spec_step (m : amap) (o : op) : amap * bool :=
       | None => (m, false)
       end
   | Load k => (m, is_some (find k m) || key_eqb k ks_key)
-  | ClearCache | Reopen _ => (m, true)
+  | ClearCache => (m, true)
+  | Reopen f => (m, 0 <=? f)
   end.
 Fixpoint spec_run (m : amap) (ops : list op) : amap :=
   match ops with [] => m | o :: r => spec_run (fst (spec_step m o)) r end.
 
 (* an operation sequence with the handles' filters forgotten *)
-Definition erase (o : op) : op := match o with Reopen _ => Reopen 0 | _ => o end.
+Definition erase (o : op) : op := match o with Reopen f => Reopen (if f <? 0 then -1 else 0) | _ => o end.
 
 Definition is_rej (o : out) : bool := match o with Rej _ => true | _ => false end.
 Definition op_key (o : op) : option key :=
